@@ -42,12 +42,25 @@ func c05Scenarios(run *core.Run) []*protoScenario {
 							continue
 						}
 						sc := &protoScenario{Side: "dec", Tasks: j, Blocks: nb, BlockSz: r.bs, Shape: r.shape, Cfg: r.cfg, Checksum: []uint{0, 32, 64}[(ri+bi)%3], Hint: hint,
-							Mode: mode, Runs: run.Pick(3, 20), Seed: S*100 + int64(ri*7+bi*3+ji)}
+							Mode: mode, Runs: run.Pick(3, 20), Seed: S*100 + int64(ri*7+bi*3+ji), Listen: (ri+bi+ji)%2 == 0}
 						if nb > 9 {
 							sc.Runs = run.Pick(2, 8)
 						}
 						scs = append(scs, sc)
 					}
+				}
+			}
+		}
+	}
+	// valid streams under (bounded) exhaustive schedules, with and without listeners: the end-of-stream task cancels the batch
+	// while the tasks of the last blocks are still decoding
+	for ri, r := range recs[:3] {
+		for _, j := range []int{2, 3, 4} {
+			for _, nb := range []int{j - 1, j + 1, 2*j - 1} {
+				for _, ls := range []bool{false, true} {
+					sc := &protoScenario{Side: "dec", Tasks: j, Blocks: nb, BlockSz: r.bs, Shape: r.shape, Cfg: r.cfg, Checksum: 32, Listen: ls,
+						Mode: "dfs", Bound: 2, Runs: run.Pick(250, 5000), Seed: S + int64(ri)}
+					scs = append(scs, sc)
 				}
 			}
 		}
